@@ -1,5 +1,554 @@
-/- C14 — property theorems only. -/
+/-
+C14 — A GridSpec tiles the plane without gaps or overlaps.
+
+All theorems are about the exact-arithmetic instance (`fl := id`) of the model in
+`Model/C14.lean`; hypotheses are "the constructor returned this object", never an abstract
+well-formedness assumption.  Directions `±1`, resolutions of either sign, any origin, any
+(negative or positive) tile index, no bound on anything.
+
+Point-set vocabulary (`BBox.memHalfOpen / memInterior / memClosed`, `GeoBox.covers`,
+`GridSpec.footprint`) is defined at the end of the model file.
+-/
 import OdcGeo.Model.C14
+import OdcGeo.Lemmas.C14
+import Mathlib.Tactic.NormNum
+
 namespace OdcGeo.C14
+
+/-! ## 1-D binning (`Bin1D`) -/
+
+/-- `Bin1D(sz, origin, direction)` is accepted iff `sz > 0` and `direction ∈ {1, -1}`. -/
+theorem bin1d_new_ok_iff (sz o : Rat) (d : Int) :
+    (∃ b, Bin1D.new sz o d = .ok b) ↔ 0 < sz ∧ (d = 1 ∨ d = -1) := by
+  constructor
+  · rintro ⟨b, h⟩
+    obtain ⟨e, w⟩ := Bin1D.new_ok h
+    subst e
+    exact ⟨w.sz_pos, w.dir⟩
+  · rintro ⟨h1, h2⟩
+    exact ⟨_, Bin1D.new_of_wf ⟨sz, o, d⟩ ⟨h1, h2⟩⟩
+
+/-- `bin x = k  ↔  lo k ≤ x < hi k` — for both directions (point lookup and index→interval agree). -/
+theorem bin_mem {sz o : Rat} {d : Int} {b : Bin1D} (hb : Bin1D.new sz o d = .ok b) (x : Rat) (k : Int) :
+    b.bin id x = k ↔ b.lo id k ≤ x ∧ x < b.hi id k :=
+  Bin1D.bin_eq_iff b (Bin1D.new_ok hb).2 x k
+
+/-- every coordinate lies in exactly one bin (no gaps, no overlaps) -/
+theorem bins_partition {sz o : Rat} {d : Int} {b : Bin1D} (hb : Bin1D.new sz o d = .ok b) (x : Rat) :
+    ∃! k : Int, b.lo id k ≤ x ∧ x < b.hi id k := by
+  refine ⟨b.bin id x, (bin_mem hb x _).mp rfl, ?_⟩
+  intro k hk
+  exact ((bin_mem hb x k).mpr hk).symm
+
+/-- the right edge of bin `k` is exactly the left edge of the next bin in index direction -/
+theorem bins_abut {sz o : Rat} {d : Int} {b : Bin1D} (hb : Bin1D.new sz o d = .ok b) (k : Int) :
+    b.hi id k = b.lo id (k + d) := by
+  obtain ⟨e, w⟩ := Bin1D.new_ok hb
+  have := Bin1D.hi_eq_lo_next b w k
+  rw [this, e]
+
+/-- every bin has width `sz` and bin `0` starts at the origin -/
+theorem bin_width_origin {sz o : Rat} {d : Int} {b : Bin1D} (hb : Bin1D.new sz o d = .ok b) (k : Int) :
+    b.hi id k - b.lo id k = sz ∧ b.lo id 0 = o := by
+  obtain ⟨e, _⟩ := Bin1D.new_ok hb
+  subst e
+  constructor
+  · rw [Bin1D.hi_eq_lo_add]; ring
+  · rw [Bin1D.lo_id]; push_cast; ring
+
+/-- distinct bins have no common point (even including their left edges) -/
+theorem bins_disjoint {sz o : Rat} {d : Int} {b : Bin1D} (hb : Bin1D.new sz o d = .ok b)
+    {j k : Int} (hjk : j ≠ k) :
+    ¬ ∃ x, (b.lo id j ≤ x ∧ x < b.hi id j) ∧ (b.lo id k ≤ x ∧ x < b.hi id k) := by
+  rintro ⟨x, h1, h2⟩
+  exact hjk (((bin_mem hb x j).mpr h1).symm.trans ((bin_mem hb x k).mpr h2))
+
+/-- `from_sample_bin(idx, (x0, x1), dir)`: accepted iff `x0 < x1` (for a legal direction); the sample
+    interval is bin `idx` of the result. -/
+theorem from_sample_bin_sample (idx : Int) (x0 x1 : Rat) {d : Int} (hd : d = 1 ∨ d = -1) :
+    (x0 < x1 → ∃ b, Bin1D.fromSampleBin id idx x0 x1 d = .ok b ∧ b.lo id idx = x0 ∧ b.hi id idx = x1
+        ∧ b.dir = d) ∧
+    (¬ x0 < x1 → Bin1D.fromSampleBin id idx x0 x1 d = .error .assertion) := by
+  constructor
+  · intro hx
+    refine ⟨_, Bin1D.fromSampleBin_ok hd hx, ?_, ?_, rfl⟩
+    · rw [Bin1D.lo_id]; ring
+    · rw [Bin1D.hi_id]; ring
+  · intro hx
+    exact Bin1D.fromSampleBin_err hx
+
+/-- a binning rebuilt from any one of its bins is the same binning -/
+theorem from_sample_bin_roundtrip {sz o : Rat} {d : Int} {b : Bin1D} (hb : Bin1D.new sz o d = .ok b)
+    (j : Int) : Bin1D.fromSampleBin id j (b.lo id j) (b.hi id j) b.dir = .ok b :=
+  Bin1D.fromSampleBin_roundtrip b (Bin1D.new_ok hb).2 j
+
+example : ∃ b, Bin1D.new (5 / 2) (-3) (-1) = .ok b :=
+  (bin1d_new_ok_iff _ _ _).mpr ⟨by norm_num, Or.inr rfl⟩
+
+/-! ## 2-D grid (`GridSpec`) -/
+
+section grid
+variable {ny nx : Int} {rx ry ox oy : Rat} {fx fy : Bool} {g : GridSpec}
+
+/-- `GridSpec(shape=(ny,nx), resolution=(rx,ry), origin, flips)` is accepted iff both tile sizes
+    `nx·|rx|`, `ny·|ry|` are positive (otherwise `AssertionError` from `Bin1D`). -/
+theorem gridspec_new_ok_iff (ny nx : Int) (rx ry ox oy : Rat) (fx fy : Bool) :
+    (∃ g, GridSpec.new id ny nx rx ry ox oy fx fy = .ok g) ↔
+      0 < (nx : Rat) * rabs rx ∧ 0 < (ny : Rat) * rabs ry :=
+  GridSpec.new_isOk_iff ny nx rx ry ox oy fx fy
+
+/-- tile size = shape × |resolution|; bins carry the origin and the direction chosen by the flip flags -/
+theorem gridspec_new_fields (hg : GridSpec.new id ny nx rx ry ox oy fx fy = .ok g) :
+    g.ny = ny ∧ g.nx = nx ∧ g.rx = rx ∧ g.ry = ry ∧
+    g.xbin = ⟨(nx : Rat) * rabs rx, ox, if fx then -1 else 1⟩ ∧
+    g.ybin = ⟨(ny : Rat) * rabs ry, oy, if fy then -1 else 1⟩ := by
+  obtain ⟨e, _⟩ := GridSpec.new_ok hg
+  subst e
+  exact ⟨rfl, rfl, rfl, rfl, rfl, rfl⟩
+
+/-- Each tile's GeoBox has the specified shape and the specified *signed* resolution, is axis aligned,
+    and its footprint is exactly the rectangle `xbin[ix] × ybin[iy]` — for all four sign combinations
+    of the resolution and all four flip combinations. -/
+theorem tile_geobox_shape_res (hg : GridSpec.new id ny nx rx ry ox oy fx fy = .ok g) (k : Int × Int) :
+    (g.tileGeobox id k).ny = ny ∧ (g.tileGeobox id k).nx = nx ∧
+    (g.tileGeobox id k).aff.a = rx ∧ (g.tileGeobox id k).aff.b = 0 ∧
+    (g.tileGeobox id k).aff.d = 0 ∧ (g.tileGeobox id k).aff.e = ry ∧
+    (g.tileGeobox id k).bbox id
+      = ⟨g.xbin.lo id k.1, g.ybin.lo id k.2, g.xbin.hi id k.1, g.ybin.hi id k.2⟩ ∧
+    ((g.tileGeobox id k).bbox id).right - ((g.tileGeobox id k).bbox id).left = (nx : Rat) * rabs rx ∧
+    ((g.tileGeobox id k).bbox id).top - ((g.tileGeobox id k).bbox id).bottom = (ny : Rat) * rabs ry := by
+  obtain ⟨e, w⟩ := GridSpec.new_ok hg
+  have hf := GridSpec.footprint_eq g w k
+  unfold GridSpec.footprint at hf
+  rw [hf]
+  subst e
+  refine ⟨rfl, rfl, rfl, rfl, rfl, rfl, rfl, ?_, ?_⟩
+  · simp only [Bin1D.hi_eq_lo_add]; ring
+  · simp only [Bin1D.hi_eq_lo_add]; ring
+
+/-- the bounding box of a tile is its footprint as a point set: the image of the pixel rectangle
+    `[0,nx]×[0,ny]` under the tile's pixel→world affine is exactly the closed bin rectangle -/
+theorem tile_footprint_is_image (hg : GridSpec.new id ny nx rx ry ox oy fx fy = .ok g) (k : Int × Int)
+    (p : Rat × Rat) : (g.tileGeobox id k).covers p ↔ (g.footprint k).memClosed p :=
+  GridSpec.tileGeobox_covers_iff g (GridSpec.new_ok hg).2 k p
+
+/-- a point lies in tile `k` (left/bottom edges included, right/top excluded) iff `pt2idx` returns `k` -/
+theorem pt_tile_unique (hg : GridSpec.new id ny nx rx ry ox oy fx fy = .ok g) (x y : Rat) (k : Int × Int) :
+    (g.footprint k).memHalfOpen (x, y) ↔ g.pt2idx id x y = k := by
+  obtain ⟨_, w⟩ := GridSpec.new_ok hg
+  rw [GridSpec.footprint_eq g w]
+  unfold BBox.memHalfOpen GridSpec.pt2idx
+  have hx := Bin1D.bin_eq_iff g.xbin w.x x k.1
+  have hy := Bin1D.bin_eq_iff g.ybin w.y y k.2
+  constructor
+  · rintro ⟨a, b, c, d⟩
+    exact Prod.ext (hx.mpr ⟨a, b⟩) (hy.mpr ⟨c, d⟩)
+  · intro h
+    have h1 := hx.mp (congrArg Prod.fst h)
+    have h2 := hy.mp (congrArg Prod.snd h)
+    exact ⟨h1.1, h1.2, h2.1, h2.2⟩
+
+/-- every point belongs to the tile that point lookup returns -/
+theorem pt_in_its_tile (hg : GridSpec.new id ny nx rx ry ox oy fx fy = .ok g) (x y : Rat) :
+    (g.footprint (g.pt2idx id x y)).memHalfOpen (x, y) :=
+  (pt_tile_unique hg x y _).mpr rfl
+
+/-- the half-open tiles partition the plane: no gaps, no overlaps -/
+theorem tiles_partition_plane (hg : GridSpec.new id ny nx rx ry ox oy fx fy = .ok g) (p : Rat × Rat) :
+    ∃! k : Int × Int, (g.footprint k).memHalfOpen p := by
+  refine ⟨g.pt2idx id p.1 p.2, pt_in_its_tile hg p.1 p.2, ?_⟩
+  intro k hk
+  exact ((pt_tile_unique hg p.1 p.2 k).mp hk).symm
+
+/-- tile footprints with distinct indices have disjoint interiors -/
+theorem tiles_disjoint_interiors (hg : GridSpec.new id ny nx rx ry ox oy fx fy = .ok g)
+    {k k' : Int × Int} (hk : k ≠ k') :
+    ¬ ∃ p, (g.footprint k).memInterior p ∧ (g.footprint k').memInterior p := by
+  rintro ⟨p, ⟨a1, a2, a3, a4⟩, ⟨b1, b2, b3, b4⟩⟩
+  have h1 := (pt_tile_unique hg p.1 p.2 k).mp ⟨a1.le, a2, a3.le, a4⟩
+  have h2 := (pt_tile_unique hg p.1 p.2 k').mp ⟨b1.le, b2, b3.le, b4⟩
+  exact hk (h1.symm.trans h2)
+
+/-- neighbouring tiles share their common edge exactly: the next tile in x index direction starts where
+    this one ends and spans the same y interval; likewise in y. -/
+theorem neighbours_share_edge (hg : GridSpec.new id ny nx rx ry ox oy fx fy = .ok g) (ix iy : Int) :
+    (g.footprint (ix + g.xbin.dir, iy)).left = (g.footprint (ix, iy)).right ∧
+    (g.footprint (ix + g.xbin.dir, iy)).bottom = (g.footprint (ix, iy)).bottom ∧
+    (g.footprint (ix + g.xbin.dir, iy)).top = (g.footprint (ix, iy)).top ∧
+    (g.footprint (ix, iy + g.ybin.dir)).bottom = (g.footprint (ix, iy)).top ∧
+    (g.footprint (ix, iy + g.ybin.dir)).left = (g.footprint (ix, iy)).left ∧
+    (g.footprint (ix, iy + g.ybin.dir)).right = (g.footprint (ix, iy)).right := by
+  obtain ⟨_, w⟩ := GridSpec.new_ok hg
+  simp only [GridSpec.footprint_eq g w]
+  exact ⟨(Bin1D.hi_eq_lo_next g.xbin w.x ix).symm, trivial, trivial,
+    (Bin1D.hi_eq_lo_next g.ybin w.y iy).symm, trivial, trivial⟩
+
+/-! ### bounding-box query -/
+
+/-- Exact characterisation of `idx_bounds` for *every* query box and tolerance (ends in any order):
+    tile `k` is in the returned index rectangle iff its half-open footprint meets the rectangle spanned
+    by the two probe points `(left+tol, bottom+tol)` and `(right−tol, top−tol)`. -/
+theorem idx_bounds_general (hg : GridSpec.new id ny nx rx ry ox oy fx fy = .ok g) (tol : Rat) (q : BBox)
+    (k : Int × Int) :
+    inRange (g.idxBounds id tol q) k ↔
+      ∃ p : Rat × Rat,
+        min (q.left + tol) (q.right - tol) ≤ p.1 ∧ p.1 ≤ max (q.left + tol) (q.right - tol) ∧
+        min (q.bottom + tol) (q.top - tol) ≤ p.2 ∧ p.2 ≤ max (q.bottom + tol) (q.top - tol) ∧
+        (g.footprint k).memHalfOpen p := by
+  obtain ⟨_, w⟩ := GridSpec.new_ok hg
+  rw [GridSpec.footprint_eq g w]
+  have X := Bin1D.range_iff g.xbin w.x (q.left + tol) (q.right - tol) k.1
+  have Y := Bin1D.range_iff g.ybin w.y (q.bottom + tol) (q.top - tol) k.2
+  unfold inRange GridSpec.idxBounds GridSpec.pt2idx BBox.memHalfOpen
+  simp only [id]
+  constructor
+  · rintro ⟨a1, a2, b1, b2⟩
+    obtain ⟨x, hx⟩ := X.mp ⟨a1, a2⟩
+    obtain ⟨y, hy⟩ := Y.mp ⟨b1, b2⟩
+    exact ⟨(x, y), hx.1, hx.2.1, hy.1, hy.2.1, hx.2.2.1, hx.2.2.2, hy.2.2.1, hy.2.2.2⟩
+  · rintro ⟨p, h1, h2, h3, h4, h5, h6, h7, h8⟩
+    have a := X.mpr ⟨p.1, h1, h2, h5, h6⟩
+    have b := Y.mpr ⟨p.2, h3, h4, h7, h8⟩
+    exact ⟨a.1, a.2, b.1, b.2⟩
+
+/-- `idx_bounds_exact`: for a query at least `2·tol` wide and high, tile `k` is in the returned range
+    iff its footprint overlaps the query shrunk by `tol` on every side.  (The hypotheses are needed:
+    see `idx_bounds_exact_thin_cex`.)  The tile is half-open, hence a tile whose *left/bottom* edge is
+    exactly `tol` inside the query's right/top edge is returned while a tile whose right/top edge is
+    exactly `tol` inside the query's left/bottom edge is not. -/
+theorem idx_bounds_exact (hg : GridSpec.new id ny nx rx ry ox oy fx fy = .ok g) (tol : Rat) (q : BBox)
+    (hx : q.left + tol ≤ q.right - tol) (hy : q.bottom + tol ≤ q.top - tol) (k : Int × Int) :
+    inRange (g.idxBounds id tol q) k ↔
+      ∃ p : Rat × Rat, q.left + tol ≤ p.1 ∧ p.1 ≤ q.right - tol ∧ q.bottom + tol ≤ p.2 ∧ p.2 ≤ q.top - tol ∧
+        (g.footprint k).memHalfOpen p := by
+  rw [idx_bounds_general hg, min_eq_left hx, max_eq_right hx, min_eq_left hy, max_eq_right hy]
+
+/-- For every (also degenerate) query `left ≤ right`, `bottom ≤ top` and `tol ≥ 0`: a returned tile
+    contains a point within `tol` of the query box — nothing farther than `tol` is ever returned. -/
+theorem idx_bounds_sound (hg : GridSpec.new id ny nx rx ry ox oy fx fy = .ok g) {tol : Rat} (ht : 0 ≤ tol)
+    (q : BBox) (hx : q.left ≤ q.right) (hy : q.bottom ≤ q.top) (k : Int × Int)
+    (hk : inRange (g.idxBounds id tol q) k) :
+    ∃ p : Rat × Rat, q.left - tol ≤ p.1 ∧ p.1 ≤ q.right + tol ∧ q.bottom - tol ≤ p.2 ∧ p.2 ≤ q.top + tol ∧
+      (g.footprint k).memHalfOpen p := by
+  obtain ⟨p, h1, h2, h3, h4, h5⟩ := (idx_bounds_general hg tol q k).mp hk
+  refine ⟨p, ?_, ?_, ?_, ?_, h5⟩
+  · rcases min_choice (q.left + tol) (q.right - tol) with h | h <;> rw [h] at h1 <;> linarith
+  · rcases max_choice (q.left + tol) (q.right - tol) with h | h <;> rw [h] at h2 <;> linarith
+  · rcases min_choice (q.bottom + tol) (q.top - tol) with h | h <;> rw [h] at h3 <;> linarith
+  · rcases max_choice (q.bottom + tol) (q.top - tol) with h | h <;> rw [h] at h4 <;> linarith
+
+/-- the returned index rectangle is never empty (also for zero-area queries) -/
+theorem idx_bounds_nonempty (g : GridSpec) (tol : Rat) (q : BBox) :
+    (g.idxBounds id tol q).1 < (g.idxBounds id tol q).2.2.1 ∧
+    (g.idxBounds id tol q).2.1 < (g.idxBounds id tol q).2.2.2 := by
+  unfold GridSpec.idxBounds
+  simp only
+  omega
+
+/-- `tiles(bounds)` enumerates exactly the index rectangle of `idx_bounds` -/
+theorem tiles_mem (g : GridSpec) (tol : Rat) (q : BBox) (k : Int × Int) :
+    k ∈ g.tiles id tol q ↔ inRange (g.idxBounds id tol q) k := by
+  unfold GridSpec.tiles inRange
+  simp only [List.mem_flatMap, List.mem_map, mem_rangeI]
+  constructor
+  · rintro ⟨iy, ⟨h1, h2⟩, ix, ⟨h3, h4⟩, rfl⟩
+    exact ⟨h3, h4, h1, h2⟩
+  · rintro ⟨h1, h2, h3, h4⟩
+    exact ⟨k.2, ⟨h3, h4⟩, k.1, ⟨h1, h2⟩, rfl⟩
+
+/-- bounding-box query: returns exactly the tiles overlapping the query shrunk by the tolerance -/
+theorem bbox_query_exact (hg : GridSpec.new id ny nx rx ry ox oy fx fy = .ok g) (tol : Rat) (q : BBox)
+    (hx : q.left + tol ≤ q.right - tol) (hy : q.bottom + tol ≤ q.top - tol) (k : Int × Int) :
+    k ∈ g.tiles id tol q ↔
+      ∃ p : Rat × Rat, q.left + tol ≤ p.1 ∧ p.1 ≤ q.right - tol ∧ q.bottom + tol ≤ p.2 ∧ p.2 ≤ q.top - tol ∧
+        (g.footprint k).memHalfOpen p := by
+  rw [tiles_mem, idx_bounds_exact hg tol q hx hy]
+
+/-! ### polygon query -/
+
+/-- `tiles_from_geopolygon` = tiles of the polygon's bounding box, minus those whose footprint the
+    `disjoint` test (shapely) reports as disjoint from the polygon -/
+theorem polygon_query_filter (g : GridSpec) (tol : Rat) (q : BBox) (dj : GeoBox → Bool) (k : Int × Int) :
+    k ∈ g.tilesFromPolygon id tol q dj ↔ k ∈ g.tiles id tol q ∧ dj (g.tileGeobox id k) = false := by
+  unfold GridSpec.tilesFromPolygon
+  simp [List.mem_filter]
+
+/-- Soundness under the contract of `disjoint` (true iff no polygon point lies in the closed footprint):
+    every returned tile's closed footprint contains a point of the polygon. -/
+theorem polygon_query_sound (hg : GridSpec.new id ny nx rx ry ox oy fx fy = .ok g) (tol : Rat) (q : BBox)
+    (poly : Rat × Rat → Prop) (dj : GeoBox → Bool)
+    (hdj : ∀ gb, dj gb = true ↔ ¬ ∃ p, poly p ∧ gb.covers p) (k : Int × Int)
+    (hk : k ∈ g.tilesFromPolygon id tol q dj) :
+    ∃ p, poly p ∧ (g.footprint k).memClosed p := by
+  have h2 := ((polygon_query_filter g tol q dj k).mp hk).2
+  have : ¬ dj (g.tileGeobox id k) = true := by rw [h2]; simp
+  rw [hdj] at this
+  obtain ⟨p, hp, hc⟩ := Classical.not_not.mp this
+  exact ⟨p, hp, (tile_footprint_is_image hg k p).mp hc⟩
+
+/-- Completeness under the same contract: for a polygon with bounding box `q` at least `2·tol` wide and
+    high, the tile of every polygon point that is at least `tol` away from the edges of `q` is returned. -/
+theorem polygon_query_complete (hg : GridSpec.new id ny nx rx ry ox oy fx fy = .ok g) (tol : Rat) (q : BBox)
+    (poly : Rat × Rat → Prop) (dj : GeoBox → Bool)
+    (hdj : ∀ gb, dj gb = true ↔ ¬ ∃ p, poly p ∧ gb.covers p)
+    (hx : q.left + tol ≤ q.right - tol) (hy : q.bottom + tol ≤ q.top - tol)
+    (p : Rat × Rat) (hp : poly p)
+    (hin : q.left + tol ≤ p.1 ∧ p.1 ≤ q.right - tol ∧ q.bottom + tol ≤ p.2 ∧ p.2 ≤ q.top - tol) :
+    g.pt2idx id p.1 p.2 ∈ g.tilesFromPolygon id tol q dj := by
+  have hmem := pt_in_its_tile hg p.1 p.2
+  rw [polygon_query_filter]
+  constructor
+  · rw [bbox_query_exact hg tol q hx hy]
+    exact ⟨p, hin.1, hin.2.1, hin.2.2.1, hin.2.2.2, hmem⟩
+  · have : ¬ dj (g.tileGeobox id (g.pt2idx id p.1 p.2)) = true := by
+      rw [hdj]
+      intro hnone
+      apply hnone
+      refine ⟨p, hp, (tile_footprint_is_image hg _ p).mpr ?_⟩
+      obtain ⟨a, b, c, d⟩ := hmem
+      exact ⟨a, b.le, c, d.le⟩
+    simpa using this
+
+end grid
+
+/-! ### corners of the bounding-box query -/
+
+section corners
+variable {ny nx : Int} {rx ry ox oy : Rat} {fx fy : Bool} {g : GridSpec}
+
+/-- "edge contacts excluded": querying with the exact footprint of tile `k` (any `0 < tol`,
+    `2·tol ≤` tile size) returns tile `k` and none of its eight neighbours. -/
+theorem edge_contact_excluded (hg : GridSpec.new id ny nx rx ry ox oy fx fy = .ok g) {tol : Rat}
+    (ht : 0 < tol) (hsx : 2 * tol ≤ (nx : Rat) * rabs rx) (hsy : 2 * tol ≤ (ny : Rat) * rabs ry)
+    (k k' : Int × Int) : k' ∈ g.tiles id tol (g.footprint k) ↔ k' = k := by
+  obtain ⟨e, w⟩ := GridSpec.new_ok hg
+  have hfk := GridSpec.footprint_eq g w k
+  have hwx : g.xbin.hi id k.1 = g.xbin.lo id k.1 + (nx : Rat) * rabs rx := by
+    rw [Bin1D.hi_eq_lo_add, w.szx, e]
+  have hwy : g.ybin.hi id k.2 = g.ybin.lo id k.2 + (ny : Rat) * rabs ry := by
+    rw [Bin1D.hi_eq_lo_add, w.szy, e]
+  rw [bbox_query_exact hg tol _ (by rw [hfk]; simp only; linarith) (by rw [hfk]; simp only; linarith)]
+  rw [hfk]
+  simp only
+  constructor
+  · rintro ⟨p, h1, h2, h3, h4, h5⟩
+    have hin : (g.footprint k).memHalfOpen (p.1, p.2) := by
+      rw [hfk]
+      exact ⟨by simp only; linarith, by simp only; linarith, by simp only; linarith,
+        by simp only; linarith⟩
+    have a := (pt_tile_unique hg p.1 p.2 k).mp hin
+    have b := (pt_tile_unique hg p.1 p.2 k').mp h5
+    exact b.symm.trans a
+  · rintro rfl
+    refine ⟨(g.xbin.lo id k'.1 + tol, g.ybin.lo id k'.2 + tol), le_refl _, by simp only; linarith,
+      le_refl _, by simp only; linarith, ?_⟩
+    rw [hfk]
+    exact ⟨by simp only; linarith, by simp only; linarith, by simp only; linarith,
+      by simp only; linarith⟩
+
+/-- The design statement `idx_bounds_exact` without the "query at least `2·tol` wide" hypothesis is
+    FALSE for the code: for the 5×5-unit grid and the zero-width query `x = 5 + 2⁻²⁸`, `1 ≤ y ≤ 2`
+    (inside tile (1,0), 3.7e-9 away from tile (0,0)) the code (tolerance `1e-8`) also returns tile
+    (0,0), whose closed footprint has no point in common with the query.  (Replayed on the real code by
+    the harness: `idx_bounds` gives `(0, 0, 2, 1)`.)  Thin queries are *widened* by the sorting of the
+    two probe points, never dropped; `idx_bounds_sound` bounds the excess by `tol`. -/
+theorem idx_bounds_exact_thin_cex :
+    ∃ (g : GridSpec) (q : BBox) (k : Int × Int),
+      GridSpec.new id 10 10 (1 / 2) (-1 / 2) 0 0 false false = .ok g ∧
+      q.left ≤ q.right ∧ q.bottom ≤ q.top ∧
+      inRange (g.idxBounds id tol8 q) k ∧ ¬ ∃ p, q.memClosed p ∧ (g.footprint k).memClosed p := by
+  have hg := GridSpec.new_eq_ok (ny := 10) (nx := 10) (rx := 1 / 2) (ry := -1 / 2) 0 0 false false
+    (by norm_num [rabs]) (by norm_num [rabs])
+  have w := (GridSpec.new_ok hg).2
+  refine ⟨_, ⟨5 + 1 / 2 ^ 28, 1, 5 + 1 / 2 ^ 28, 2⟩, (0, 0), hg, le_refl _, by norm_num, ?_, ?_⟩
+  · rw [idx_bounds_general hg]
+    refine ⟨(5 + 1 / 2 ^ 28 - tol8, 3 / 2), ?_⟩
+    rw [GridSpec.footprint_eq _ w]
+    have m1 : min ((5 : Rat) + 1 / 2 ^ 28 + tol8) (5 + 1 / 2 ^ 28 - tol8) = 5 + 1 / 2 ^ 28 - tol8 :=
+      min_eq_right (by norm_num [tol8])
+    have m2 : max ((5 : Rat) + 1 / 2 ^ 28 + tol8) (5 + 1 / 2 ^ 28 - tol8) = 5 + 1 / 2 ^ 28 + tol8 :=
+      max_eq_left (by norm_num [tol8])
+    have m3 : min ((1 : Rat) + tol8) (2 - tol8) = 1 + tol8 := min_eq_left (by norm_num [tol8])
+    have m4 : max ((1 : Rat) + tol8) (2 - tol8) = 2 - tol8 := max_eq_right (by norm_num [tol8])
+    simp only [m1, m2, m3, m4, BBox.memHalfOpen, Bin1D.lo_id, Bin1D.hi_id, dirOf, rabs]
+    norm_num [tol8]
+  · rintro ⟨p, ⟨h1, _, _, _⟩, ⟨_, h2, _, _⟩⟩
+    rw [GridSpec.footprint_eq _ w] at h2
+    simp only [Bin1D.hi_id, dirOf, rabs] at h1 h2
+    norm_num at h1 h2
+    linarith
+
+end corners
+
+/-! ## `from_sample_tile` -/
+
+section sample
+variable {ny nx : Int} {rx ry ox oy : Rat} {fx fy : Bool} {g : GridSpec}
+
+/-- a grid built from a sample tile has that tile (footprint, shape) at the given index, index
+    directions as requested, and the conventional resolution signs (x positive, y negative) -/
+theorem from_sample_tile_sample (q : BBox) {ny nx : Int} (ix iy : Int) (fx fy : Bool)
+    (hx : q.left < q.right) (hy : q.bottom < q.top) (hnx : 0 < nx) (hny : 0 < ny) :
+    ∃ g', GridSpec.fromSampleTile id q ny nx ix iy fx fy = .ok g' ∧
+      g'.footprint (ix, iy) = q ∧ g'.ny = ny ∧ g'.nx = nx ∧
+      g'.xbin.dir = (if fx then -1 else 1) ∧ g'.ybin.dir = (if fy then -1 else 1) ∧
+      g'.rx = (q.right - q.left) / (nx : Rat) ∧ g'.ry = -(q.top - q.bottom) / (ny : Rat) := by
+  obtain ⟨g', h, w, h1, h2, h3, h4, h5, h6⟩ := GridSpec.fromSampleTile_spec ix iy fx fy hx hy hnx hny
+  refine ⟨g', h, ?_, h1, h2, by rw [h5]; rfl, by rw [h6]; rfl, h3, h4⟩
+  rw [GridSpec.footprint_eq g' w, h5, h6]
+  simp only [Bin1D.lo_id, Bin1D.hi_id]
+  obtain ⟨l, b, r, t⟩ := q
+  simp only [BBox.mk.injEq]
+  refine ⟨?_, ?_, ?_, ?_⟩ <;> ring
+
+/-- what `from_sample_tile` rejects -/
+theorem from_sample_tile_rejects (q : BBox) (ny nx ix iy : Int) (fx fy : Bool) :
+    ((ny = -1 ∧ nx = -1) → GridSpec.fromSampleTile id q ny nx ix iy fx fy = .error .valueError) ∧
+    (¬ (ny = -1 ∧ nx = -1) → ¬ q.left < q.right →
+      GridSpec.fromSampleTile id q ny nx ix iy fx fy = .error .assertion) := by
+  constructor
+  · intro h
+    unfold GridSpec.fromSampleTile
+    simp only [h, and_self, if_true]
+    rfl
+  · intro h hx
+    unfold GridSpec.fromSampleTile
+    rw [Bin1D.fromSampleBin_err hx]
+    simp only [h, if_false]
+    rfl
+
+/-- `from_sample_roundtrip`: a grid rebuilt from ANY one of its tiles (footprint, index, shape, flip
+    flags) has the same footprint for every index and the same point lookup — although its resolution
+    signs are normalised to (+x, −y), whatever the signs of the original were. -/
+theorem from_sample_roundtrip (hg : GridSpec.new id ny nx rx ry ox oy fx fy = .ok g) (j : Int × Int) :
+    ∃ g', GridSpec.fromSampleTile id (g.footprint j) ny nx j.1 j.2 fx fy = .ok g' ∧
+      (∀ k, g'.footprint k = g.footprint k) ∧ (∀ x y, g'.pt2idx id x y = g.pt2idx id x y) ∧
+      g'.ny = ny ∧ g'.nx = nx ∧ g'.rx = rabs rx ∧ g'.ry = -rabs ry := by
+  obtain ⟨e, w⟩ := GridSpec.new_ok hg
+  have hnx : 0 < nx := by have := w.x.sz_pos; rw [w.szx, e] at this; exact GridSpec.n_pos_of_sz this
+  have hny : 0 < ny := by have := w.y.sz_pos; rw [w.szy, e] at this; exact GridSpec.n_pos_of_sz this
+  have hnx' : (nx : Rat) ≠ 0 := by exact_mod_cast hnx.ne'
+  have hny' : (ny : Rat) ≠ 0 := by exact_mod_cast hny.ne'
+  have hdx : g.xbin.dir = dirOf fx := by rw [e]
+  have hdy : g.ybin.dir = dirOf fy := by rw [e]
+  have hfj := GridSpec.footprint_eq g w j
+  obtain ⟨g', h, w', h1, h2, h3, h4, h5, h6⟩ :=
+    GridSpec.fromSampleTile_spec (q := g.footprint j) (ny := ny) (nx := nx) j.1 j.2 fx fy
+      (by rw [hfj]; exact Bin1D.lo_lt_hi _ w.x _) (by rw [hfj]; exact Bin1D.lo_lt_hi _ w.y _) hnx hny
+  -- the two rebuilt binnings are the original ones
+  have bx : g'.xbin = g.xbin := by
+    have r := Bin1D.fromSampleBin_roundtrip g.xbin w.x j.1
+    rw [Bin1D.fromSampleBin_ok w.x.dir (Bin1D.lo_lt_hi _ w.x _)] at r
+    rw [h5, hfj, ← hdx]
+    exact Except.ok.inj r
+  have by' : g'.ybin = g.ybin := by
+    have r := Bin1D.fromSampleBin_roundtrip g.ybin w.y j.2
+    rw [Bin1D.fromSampleBin_ok w.y.dir (Bin1D.lo_lt_hi _ w.y _)] at r
+    rw [h6, hfj, ← hdy]
+    exact Except.ok.inj r
+  refine ⟨g', h, ?_, ?_, h1, h2, ?_, ?_⟩
+  · intro k
+    rw [GridSpec.footprint_eq g' w', GridSpec.footprint_eq g w, bx, by']
+  · intro x y
+    unfold GridSpec.pt2idx
+    rw [bx, by']
+  · rw [h3, hfj]
+    simp only [Bin1D.hi_eq_lo_add]
+    rw [w.szx, e]
+    field_simp
+    ring
+  · rw [h4, hfj]
+    simp only [Bin1D.hi_eq_lo_add]
+    rw [w.szy, e]
+    field_simp
+    ring
+
+end sample
+
+
+/-! ## `web_tiles` (slippy-map tiles);  `P` stands for the double `math.pi * 6378137` -/
+
+section web
+variable {P : Rat} {npix : Int} {g : GridSpec}
+
+/-- the web-tile grid is an ordinary `GridSpec` (so every theorem above applies to it): x index left to
+    right from `-P`, y index top to bottom from `+P`, square tiles of side `P·2^(1-z)`, `npix` pixels -/
+theorem web_tiles_is_gridspec (hP : 0 < P) (z : Int) (hn : 0 < npix) :
+    GridSpec.webTiles id P z npix =
+      GridSpec.new id npix npix (P * pow2 (1 - z) / (npix : Rat)) (-(P * pow2 (1 - z)) / (npix : Rat))
+        (-P) (P - P * pow2 (1 - z)) false true :=
+  GridSpec.webTiles_eq_new hP z hn
+
+/-- `web_tile_extent`: tile `(i, j)` at zoom `z` has exactly the slippy-map extent
+    `x ∈ [-P + i·T, -P + (i+1)·T]`, `y ∈ [P - (j+1)·T, P - j·T]`, `T = 2P / 2^z`; pixel size `T / npix`
+    (x positive, y negative). -/
+theorem web_tile_extent (hP : 0 < P) (z : Nat) (hn : 0 < npix)
+    (hg : GridSpec.webTiles id P (z : Int) npix = .ok g) (i j : Int) :
+    g.footprint (i, j) =
+      ⟨-P + (i : Rat) * (2 * P / 2 ^ z), P - ((j : Rat) + 1) * (2 * P / 2 ^ z),
+       -P + ((i : Rat) + 1) * (2 * P / 2 ^ z), P - (j : Rat) * (2 * P / 2 ^ z)⟩ ∧
+    g.ny = npix ∧ g.nx = npix ∧
+    g.rx = 2 * P / 2 ^ z / (npix : Rat) ∧ g.ry = -(2 * P / 2 ^ z) / (npix : Rat) := by
+  rw [web_tiles_is_gridspec hP _ hn] at hg
+  obtain ⟨e, w⟩ := GridSpec.new_ok hg
+  have hn' : (0 : Rat) < (npix : Rat) := by exact_mod_cast hn
+  have ht : 0 < P * pow2 (1 - (z : Int)) := mul_pos hP (pow2_pos _)
+  have hT : P * pow2 (1 - (z : Int)) = 2 * P / 2 ^ z := by rw [pow2_one_sub]; ring
+  have sx : g.xbin.sz = 2 * P / 2 ^ z := by
+    rw [w.szx, e]
+    simp only
+    rw [GridSpec.rabs_of_pos (div_pos ht hn'), ← hT]; field_simp
+  have sy : g.ybin.sz = 2 * P / 2 ^ z := by
+    rw [w.szy, e]
+    simp only
+    have : -(P * pow2 (1 - (z : Int))) / (npix : Rat) < 0 := by
+      rw [neg_div]; exact neg_neg_of_pos (div_pos ht hn')
+    unfold rabs; rw [if_pos this, ← hT]; field_simp
+  refine ⟨?_, by rw [e], by rw [e], by rw [e, hT], by rw [e, hT]⟩
+  rw [GridSpec.footprint_eq g w]
+  simp only [Bin1D.hi_id, Bin1D.lo_id, sx, sy]
+  rw [e]
+  simp only [dirOf, Bool.false_eq_true, if_false, if_true, hT]
+  push_cast
+  refine BBox.mk.injEq .. |>.mpr ⟨?_, ?_, ?_, ?_⟩ <;> ring
+
+/-- `web_tiles_count`: the tiles lying inside the world square `[-P, P]²` are exactly those with both
+    indices in `[0, 2^z)` — `2^z` tiles per side (together with `tiles_partition_plane` they tile the
+    square without gaps or overlaps). -/
+theorem web_tiles_count (hP : 0 < P) (z : Nat) (hn : 0 < npix)
+    (hg : GridSpec.webTiles id P (z : Int) npix = .ok g) (i j : Int) :
+    (0 ≤ i ∧ i < 2 ^ z ∧ 0 ≤ j ∧ j < 2 ^ z) ↔
+      (-P ≤ (g.footprint (i, j)).left ∧ (g.footprint (i, j)).right ≤ P ∧
+       -P ≤ (g.footprint (i, j)).bottom ∧ (g.footprint (i, j)).top ≤ P) := by
+  rw [(web_tile_extent hP z hn hg i j).1]
+  simp only
+  have hT : 0 < 2 * P / 2 ^ z := by positivity
+  have key : ((2 ^ z : Int) : Rat) * (2 * P / 2 ^ z) = 2 * P := by
+    push_cast; field_simp
+  have a := int_mul_nonneg_iff hT i
+  have b := int_mul_le_iff hT (i + 1) (2 ^ z)
+  have c := int_mul_nonneg_iff hT j
+  have d := int_mul_le_iff hT (j + 1) (2 ^ z)
+  rw [key] at b d
+  push_cast at b d
+  constructor
+  · rintro ⟨h1, h2, h3, h4⟩
+    have := a.mpr h1
+    have := b.mpr (by omega)
+    have := c.mpr h3
+    have := d.mpr (by omega)
+    refine ⟨by linarith, by linarith, by linarith, by linarith⟩
+  · rintro ⟨h1, h2, h3, h4⟩
+    have := a.mp (by linarith)
+    have := b.mp (by linarith)
+    have := c.mp (by linarith)
+    have := d.mp (by linarith)
+    omega
+
+example : ∃ g, GridSpec.webTiles id 3 (2 : Nat) 256 = .ok g := by
+  rw [web_tiles_is_gridspec (by norm_num) _ (by norm_num)]
+  exact (gridspec_new_ok_iff _ _ _ _ _ _ _ _).mpr ⟨by norm_num [rabs, pow2], by norm_num [rabs, pow2]⟩
+
+end web
 
 end OdcGeo.C14
